@@ -104,6 +104,30 @@ EntryMatches(entry, tenant) ==
         IF entry.glob THEN GlobMatch(entry.tenants[k], tenant) ELSE entry.tenants[k] = tenant
 IsDefaultEntry(entry) == entry.tenants = <<>>
 
+(* overrides: sequence of [size, tenants (sequence of char sequences), type "exact"|"glob"|""   *)
+(* ("" = exact, the documented default)].  "overrides (exact, glob) select the size": the    *)
+(* size configured for a tenant is that of a matching override, else the default; when       *)
+(* several overrides match, any of them is accepted (the statement does not rank them).      *)
+OverrideMatches(ov, tenant) ==
+    \E k \in DOMAIN ov.tenants :
+        IF ov.type = "glob" THEN GlobMatch(ov.tenants[k], tenant) ELSE ov.tenants[k] = tenant
+AcceptedShardSizes(default, ovs, tenant) ==
+    LET m == { k \in DOMAIN ovs : OverrideMatches(ovs[k], tenant) }
+    IN IF m = {} THEN {default} ELSE { ovs[k].size : k \in m }
+
+(* C21 clauses for one tenant.  shards: the node sets observed for the tenant (cached call,  *)
+(* call after eviction, fresh computation, new hashring instance); reps: replica lists        *)
+(* observed for the tenant's series; sizes: accepted shard sizes; az: layout of the whole    *)
+(* hashring.                                                                                  *)
+C21Clauses(shards, reps, sizes, az, zoneAware) ==
+    (IF \A a, b \in DOMAIN shards : shards[a] = shards[b] THEN {} ELSE {"same-set-of-nodes-every-time"})
+    \cup (IF \A a \in DOMAIN shards : shards[a] \subseteq DOMAIN az THEN {} ELSE {"shard-nodes-are-configured-endpoints"})
+    \cup (IF \A a \in DOMAIN shards :
+               shards[a] \subseteq DOMAIN az => \E sz \in sizes : ShardSizeOK(shards[a], sz, az, zoneAware)
+          THEN {} ELSE {"configured-number-of-nodes-per-zone"})
+    \cup (IF \A k \in DOMAIN reps, a \in DOMAIN shards : HSeqRange(reps[k]) \subseteq shards[a]
+          THEN {} ELSE {"replicas-placed-inside-the-shard"})
+
 (* ---- C27: which hashring serves a tenant ---- *)
 (* "the first configured hashring whose tenant list matches it exactly or by glob pattern,   *)
 (* falling back to a hashring without a tenant list".  Two readings are accepted (DESIGN     *)
@@ -167,6 +191,35 @@ SectionReplicas(ring, az, rf, i) == HWalk(ring, az, rf, i, <<>>, rf * Len(ring))
 
 (* ---- hashmod: endpoints sorted by address, replica n = sorted[(h + n) mod len] ---- *)
 HashmodReplicas(sorted, h, rf) == [k \in 1..rf |-> sorted[((h + k - 1) % Len(sorted)) + 1]]
+
+(* ---- shuffle shards: getTenantShard ---- *)
+(* nodes per zone taken for a shard of the given size *)
+ShardTake(size, az, zoneAware) == IF zoneAware THEN ShardPerZone(size, az) ELSE size
+(* one pick: walk the zone's ring from position p to the first endpoint not selected yet     *)
+(* (0 = a full lap found none)                                                                *)
+RECURSIVE ShardWalk(_, _, _, _)
+ShardWalk(zring, sel, p, fuel) ==
+    IF fuel = 0 THEN 0
+    ELSE IF zring[p] \notin sel THEN zring[p]
+    ELSE ShardWalk(zring, sel, (p % Len(zring)) + 1, fuel - 1)
+(* ps: the pseudo-random start positions drawn for the zone (seeded by tenant and zone) *)
+RECURSIVE ShardPicks(_, _, _)
+ShardPicks(zring, ps, sel) ==
+    IF ps = <<>> THEN sel
+    ELSE LET nd == ShardWalk(zring, sel, Head(ps), Len(zring))
+         IN ShardPicks(zring, Tail(ps), IF nd = 0 THEN sel ELSE sel \cup {nd})
+ZoneShard(zring, ps) == ShardPicks(zring, ps, {})
+(* getShardSize: the first override in configuration order that matches, else the default *)
+ShardSizeAlgo(default, ovs, tenant) ==
+    LET m == { k \in DOMAIN ovs : ovs[k].type \in {"exact", "glob", ""} /\ OverrideMatches(ovs[k], tenant) }
+    IN IF m = {} THEN default ELSE ovs[HMin(m)].size
+
+(* ---- enumeration helpers for the models ---- *)
+(* zone layouts of n endpoints up to renaming: zone sizes non-increasing, at most mz zones *)
+HLayouts(n, mz) == { a \in [1..n -> 1..mz] :
+                      /\ a[1] = 1
+                      /\ \A k \in 1..(n - 1) : a[k + 1] >= a[k] /\ a[k + 1] <= a[k] + 1
+                      /\ \A z \in 1..(mz - 1) : ZoneCap(a, z) >= ZoneCap(a, z + 1) }
 
 (* ---- loading a configuration (C19 conformance) ---- *)
 (* eps: sequence of [a, z]; returns "ok" / "error" as NewMultiHashring does *)
